@@ -103,7 +103,8 @@ def check_triple(T, M, W, obs, axis=False):
                 sa = np.asarray(tr.transform_non_affine(x[1:-1]), dtype=float)
                 obs.claim('axis', float(np.max(np.abs(sa - s[1:-1]))) <= 1e-4 * M,
                           'axis transform is not the inverse')
-                ax.set_xlim(x[0] - abs(x[-1]) - 1.0, x[-1] * 3 + 1.0)
+                span = abs(x[-1] - x[0]) + 1.0
+                ax.set_xlim(x[0] - span, x[-1] + span)
                 lo, hi = ax.get_xlim()
                 obs.claim('axis', lo >= x[0] - 1e-9 * abs(x[0]) - 1e-300 and hi <= x[-1] + 1e-9 * abs(x[-1]) + 1e-300,
                           lambda: 'limits (%r,%r) not clamped to (%r,%r)' % (lo, hi, x[0], x[-1]))
